@@ -71,15 +71,19 @@ class Scen(CompScenario):
         for p in self.ports:
             en = stim.get(f"{p}.en", 0)
             done[p] = obs[f"{p}.done"]
-            if en:  # readiness as the caller experiences it is observable only while it requests
+            # readiness as the caller experiences it is observable only while it requests; the statement
+            # gives readiness of read / peek / write only -- clear is held to `done => en` alone
+            if en and p != "clear":
                 self.expect(obs[f"{p}.runnable"] == int(exp_ready[p]), "ready-mismatch",
                             f"{p} callable={obs[f'{p}.runnable']} but queue level={level}/{depth}", port=p)
+            elif en and not obs[f"{p}.runnable"]:
+                self.hit("clear_not_callable")
             self.expect(not done[p] or (en and exp_ready[p]), "ran-when-not-callable",
                         f"{p}: en={en} ready={exp_ready[p]} done={done[p]} level={level}/{depth}", port=p)
             if en and exp_ready[p] and not done[p]:
                 self.hit("blocked_though_ready")  # scheduling (C07) business, not a queue violation
         for p in ("read", "peek"):
-            if p in done and nonempty:  # output must show the head whenever the method is ready
+            if done.get(p):  # what an executed read / peek returned (the statement speaks of returned elements)
                 got = tuple(obs[f"{p}.o.{f}"] for f in self.fields)
                 self.expect(got == q[0], "data-mismatch", f"{p} returned {got}, head is {q[0]} (level {level})", port=p)
         # coverage / fault kinds that actually fired
@@ -137,6 +141,9 @@ class Prop(PropBase):
             "transactron.lib.adapters.AdapterTrans", "TransactionManager + scheduler", "amaranth.lib.fifo.SyncFIFO", "amaranth pysim"]
     stubs = ["cycle driver (stimulus)", "deque reference model"]
     search_space = "FIFO configurations and read/peek/write/clear call histories with flush and boundary faults"
+    assumptions = ["fullness / emptiness are judged on the queue level at the beginning of the cycle (a read does not make "
+                   "room for a write of the same cycle, a write does not feed a read of the same cycle); of the calls "
+                   "executed in one cycle `clear` is applied last"]
 
     def gen_config(self, rng, tier, idx):
         big = tier == "thorough"
